@@ -135,14 +135,14 @@ Section Heap.
 
   Lemma sift_up_len : forall fuel h pos, length (sift_up cmp fuel h pos) = length h.
   Proof.
-    induction fuel as [|f IH]; intros h pos; cbn; auto.
+    induction fuel as [|f IH]; intros h pos; cbn [sift_up]; auto.
     destruct (pos =? 0); auto. destruct (le_at cmp h pos ((pos - 1) / 2)); auto.
     rewrite IH. apply length_swap.
   Qed.
 
   Lemma sift_up_perm : forall fuel h pos, Permutation (sift_up cmp fuel h pos) h.
   Proof.
-    induction fuel as [|f IH]; intros h pos; cbn; auto.
+    induction fuel as [|f IH]; intros h pos; cbn [sift_up]; auto.
     destruct (pos =? 0); auto. destruct (le_at cmp h pos ((pos - 1) / 2)); auto.
     eapply perm_trans; [apply IH|apply swap_perm].
   Qed.
@@ -220,7 +220,7 @@ Section Heap.
 
   Lemma sift_down_len : forall fuel h pos, length (fst (sift_down cmp fuel h pos)) = length h.
   Proof.
-    induction fuel as [|f IH]; intros h pos; cbn; auto.
+    induction fuel as [|f IH]; intros h pos; cbn [sift_down]; auto.
     destruct (2 * pos + 1 <=? length h - 2).
     - rewrite IH. apply length_swap.
     - destruct (2 * pos + 1 =? length h - 1); cbn; auto. apply length_swap.
@@ -228,7 +228,7 @@ Section Heap.
 
   Lemma sift_down_perm : forall fuel h pos, Permutation (fst (sift_down cmp fuel h pos)) h.
   Proof.
-    induction fuel as [|f IH]; intros h pos; cbn; auto.
+    induction fuel as [|f IH]; intros h pos; cbn [sift_down]; auto.
     destruct (2 * pos + 1 <=? length h - 2).
     - eapply perm_trans; [apply IH|apply swap_perm].
     - destruct (2 * pos + 1 =? length h - 1); cbn; auto. apply swap_perm.
@@ -366,54 +366,69 @@ Section Heap.
     apply Permutation_cons_append.
   Qed.
 
+  Definition pop_h1 (top : entry) (t : list entry) : list entry := last t top :: removelast t.
+
+  Lemma heap_pop_cons2 : forall top z t',
+    heap_pop cmp (top :: z :: t') =
+    Some (top, sift_up cmp (S (length (pop_h1 top (z :: t'))))
+                 (fst (sift_down cmp (length (pop_h1 top (z :: t'))) (pop_h1 top (z :: t')) 0))
+                 (snd (sift_down cmp (length (pop_h1 top (z :: t'))) (pop_h1 top (z :: t')) 0))).
+  Proof.
+    intros. unfold heap_pop, pop_h1.
+    destruct (sift_down cmp (length (last (z :: t') top :: removelast (z :: t'))) (last (z :: t') top :: removelast (z :: t')) 0).
+    reflexivity.
+  Qed.
+
   Lemma heap_pop_perm : forall h e h', heap_pop cmp h = Some (e, h') -> Permutation h (e :: h').
   Proof.
-    intros h e h' H. unfold heap_pop in H. destruct h as [|top t]; [discriminate|].
+    intros h e h' H. destruct h as [|top t]; [discriminate|].
     destruct t as [|z t'].
-    - injection H as <- <-. reflexivity.
-    - set (t := z :: t') in *.
-      destruct (sift_down cmp (length (last t top :: removelast t)) (last t top :: removelast t) 0) as [h2 pos] eqn:E.
-      injection H as <- <-. apply perm_skip.
+    - cbn in H. injection H as <- <-. reflexivity.
+    - rewrite heap_pop_cons2 in H.
+      remember (pop_h1 top (z :: t')) as h1 eqn:Eh1.
+      remember (sift_up cmp (S (length h1)) (fst (sift_down cmp (length h1) h1 0)) (snd (sift_down cmp (length h1) h1 0))) as r eqn:Er.
+      assert (e = top) by congruence. assert (h' = r) by congruence. subst e h' r.
+      apply perm_skip.
       eapply perm_trans; [|apply Permutation_sym, sift_up_perm].
-      pose proof (sift_down_perm (length (last t top :: removelast t)) (last t top :: removelast t) 0) as Hp.
-      rewrite E in Hp. cbn [fst] in Hp.
-      eapply perm_trans; [|apply Permutation_sym; exact Hp].
-      apply Permutation_sym, removelast_last_perm. discriminate.
+      eapply perm_trans; [|apply Permutation_sym, sift_down_perm].
+      subst h1. apply Permutation_sym, removelast_last_perm. discriminate.
   Qed.
 
   Lemma heap_pop_ok : forall h e h', allP h -> hp_ok h -> heap_pop cmp h = Some (e, h') -> hp_ok h'.
   Proof.
-    intros h e h' HP Hok H. unfold heap_pop in H. destruct h as [|top t]; [discriminate|].
+    intros h e h' HP Hok H. destruct h as [|top t]; [discriminate|].
     destruct t as [|z t'].
-    - injection H as <- <-. intros c p He x y Hx. destruct c; discriminate.
-    - set (t := z :: t') in *.
-      set (h1 := last t top :: removelast t) in *.
-      assert (Hperm1 : Permutation h1 t) by (apply removelast_last_perm; discriminate).
-      assert (HP1 : allP h1).
-      { eapply allP_perm; [apply Permutation_sym; exact Hperm1|]. inversion HP; assumption. }
-      assert (Hl1 : length h1 = length t).
-      { unfold h1. cbn [length]. rewrite removelast_len. unfold t. cbn. lia. }
-      assert (Hdi : down_inv h1 0).
+    - cbn in H. injection H as <- <-. intros c p He x y Hx. destruct c; discriminate.
+    - rewrite heap_pop_cons2 in H.
+      set (t := z :: t') in *.
+      assert (Hperm1 : Permutation (pop_h1 top t) t) by (apply removelast_last_perm; discriminate).
+      assert (Hl1 : length (pop_h1 top t) = length t).
+      { unfold pop_h1. cbn [length]. rewrite removelast_len. unfold t. cbn. lia. }
+      assert (Hdi : down_inv (pop_h1 top t) 0).
       { constructor.
         - intros c p He Hc Hp x y Hx Hy.
-          assert (Hcl : c < length h1) by (eapply get_lt; eauto).
+          assert (Hcl : c < length (pop_h1 top t)) by (eapply get_lt; eauto).
           assert (Hpl : p < c) by (unfold edge in He; lia).
           destruct c as [|c]; [lia|]. destruct p as [|p]; [lia|].
-          unfold h1 in Hx, Hy. cbn in Hx, Hy.
+          unfold pop_h1 in Hx, Hy. cbn [Merge.get nth_error] in Hx, Hy.
           fold (get (removelast t) c) in Hx. fold (get (removelast t) p) in Hy.
           rewrite removelast_get in Hx by lia. rewrite removelast_get in Hy by lia.
           apply (Hok (S c) (S p) He); cbn; assumption.
         - intros c pp _ He. unfold edge in He. lia. }
-      destruct (sift_down cmp (length h1) h1 0) as [h2 pos] eqn:E.
-      injection H as <- <-.
+      remember (pop_h1 top t) as h1 eqn:Eh1.
+      assert (HP1 : allP h1).
+      { eapply allP_perm; [apply Permutation_sym; exact Hperm1|]. inversion HP; assumption. }
       pose proof (sift_down_inv (length h1) h1 0 ltac:(lia) ltac:(rewrite Hl1; unfold t; cbn; lia) HP1 Hdi) as [Hu Hpos].
       pose proof (sift_down_len (length h1) h1 0) as Hlen2.
       pose proof (sift_down_perm (length h1) h1 0) as Hperm2.
-      rewrite E in Hu, Hpos, Hlen2, Hperm2. cbn [fst snd] in *.
-      apply sift_up_ok; auto.
+      remember (sift_down cmp (length h1) h1 0) as sd eqn:Esd.
+      remember (sift_up cmp (S (length h1)) (fst sd) (snd sd)) as r eqn:Er.
+      assert (h' = r) by congruence. subst h' r.
+      apply sift_up_ok.
       + lia.
-      + lia.
+      + rewrite Hlen2. exact Hpos.
       + eapply allP_perm; [apply Permutation_sym; exact Hperm2|exact HP1].
+      + exact Hu.
   Qed.
 
   (** the root is a minimum *)
@@ -437,17 +452,17 @@ Section Heap.
   Proof.
     intros h e h' HP Hok H x Hin.
     assert (Ht : get h 0 = Some e).
-    { unfold heap_pop in H. destruct h as [|top t]; [discriminate|]. destruct t.
-      - injection H as <- _. reflexivity.
-      - destruct (sift_down cmp _ _ 0). injection H as <- _. reflexivity. }
+    { destruct h as [|top t]; [discriminate|]. destruct t.
+      - cbn in H. injection H as <- _. reflexivity.
+      - rewrite heap_pop_cons2 in H. assert (e = top) by congruence. subst e. reflexivity. }
     apply In_nth_error in Hin. destruct Hin as [i Hi].
     eapply hp_root_min; eauto.
   Qed.
 
   Lemma heap_pop_none : forall h, heap_pop cmp h = None -> h = [].
   Proof.
-    intros h H. unfold heap_pop in H. destruct h as [|top t]; auto. destruct t; [discriminate|].
-    destruct (sift_down cmp _ _ 0). discriminate.
+    intros h H. destruct h as [|top t]; auto. destruct t; [discriminate|].
+    rewrite heap_pop_cons2 in H. discriminate.
   Qed.
 
   Lemma hp_ok_nil : hp_ok [].
